@@ -18,7 +18,7 @@ try:
     out = subprocess.run(["git", "-C", "/repo", "log", "--format=%h %s"], capture_output=True, text=True).stdout
     for line in out.splitlines():
         h, _, subj = line.partition(" ")
-        if subj.startswith("verif:") or subj.startswith("hook:"):
+        if subj.startswith("verif:") or subj.startswith("hook:") or subj.startswith("verif hook:"):
             hook_commits.append(h)
 except Exception:
     pass
